@@ -28,7 +28,7 @@ func init() {
 		Run: runRejectFirst,
 	})
 	register(&Rule{
-		ID: "C16.narrowing-exact", Prop: "C16", Also: []string{"C18", "C02", "C03", "C13", "C14"}, Floor: 8, Controls: 1,
+		ID: "C16.narrowing-exact", Prop: "C16", Also: []string{"C18", "C02", "C03", "C13", "C14", "C15"}, Floor: 8, Controls: 1,
 		Doc: "a value obtained by narrowing a big.Float (Int64 / Uint64 / Float64 / Float32) is used only where the accuracy returned by the same call was compared with big.Exact on the way (an encoder that writes, or a bridge that stores, an inexact narrowing changes the number silently); a narrowing whose accuracy is discarded must not reach an encoder, a reflect setter or a number constructor",
 		Run: runNarrowingExact,
 	})
@@ -214,6 +214,8 @@ func isEncoderSink(f *types.Func) bool {
 	switch funcKey(f) {
 	case "cty.NumberIntVal", "cty.NumberUIntVal", "cty.NumberFloatVal":
 		return true // a number value built from the narrowed number
+	case "strconv.FormatInt", "strconv.FormatUint", "strconv.FormatFloat", "strconv.AppendInt", "strconv.AppendUint", "strconv.AppendFloat", "strconv.Itoa":
+		return true // the number's text, written out by a text encoder (JSON)
 	}
 	if f.Pkg() != nil && strings.Contains(f.Pkg().Path(), "vmihailenco/msgpack") && strings.HasPrefix(f.Name(), "Encode") {
 		return true
